@@ -1,0 +1,51 @@
+//go:build verif
+
+package pokertable
+
+import (
+	"github.com/weedbox/pokertable/open_game_manager"
+	"github.com/weedbox/pokertable/seat_manager"
+	"github.com/weedbox/syncsaga"
+)
+
+// Verification hooks: accessors only, compiled in with `-tags verif`.
+// Nothing outside this file refers to them.
+
+// VerifSeatManager returns the seat manager of a table engine (nil before CreateTable).
+func VerifSeatManager(e TableEngine) seat_manager.SeatManager {
+	if te, ok := e.(*tableEngine); ok {
+		return te.sm
+	}
+	return nil
+}
+
+// VerifOpenGameManager returns the open-game manager of a table engine (nil before CreateTable).
+func VerifOpenGameManager(e TableEngine) open_game_manager.OpenGameManager {
+	if te, ok := e.(*tableEngine); ok {
+		return te.ogm
+	}
+	return nil
+}
+
+// VerifSetOpenGameManager replaces the open-game manager (used to interpose a delegating spy).
+func VerifSetOpenGameManager(e TableEngine, m open_game_manager.OpenGameManager) {
+	if te, ok := e.(*tableEngine); ok {
+		te.ogm = m
+	}
+}
+
+// VerifAutoJoinGroup returns the ready group used for auto-joining reserved players.
+func VerifAutoJoinGroup(e TableEngine) *syncsaga.ReadyGroup {
+	if te, ok := e.(*tableEngine); ok {
+		return te.rg
+	}
+	return nil
+}
+
+// VerifIsReleased reports the engine's released flag.
+func VerifIsReleased(e TableEngine) bool {
+	if te, ok := e.(*tableEngine); ok {
+		return te.isReleased
+	}
+	return false
+}
